@@ -103,4 +103,17 @@ theorem rleDecode_encode {α : Type} [DecidableEq α] {c : ValCodec α} {Valid :
   rw [rleLoad_encode law nullable w hw num xs hlen hv]
   simp [expand_itemsOf]
 
+theorem realise_deltas : ∀ (xs : List (Option Int)) (a : Int), realise (deltas xs a) a = xs := by
+  intro xs
+  induction xs with
+  | nil => intro a; rfl
+  | cons x xs ih =>
+    intro a
+    cases x with
+    | none => simp [deltas, realise, ih]
+    | some v =>
+      simp only [deltas, realise]
+      have : a + (v - a) = v := by omega
+      rw [this, ih]
+
 end AmVerif.Hexane
